@@ -50,13 +50,27 @@ def minAbs [LT K] [DecidableLT K] [Neg K] [Zero K] (x y : K) : K :=
   let ay := if y < 0 then -y else y
   if ax < ay then x else y
 
-/-- one pass of the `while True` loop with step-size factor `p` (as the pinned code does it: the
-    propagated state is kept even when the step is rejected) -/
+/-- one pass of the `while True` loop with step-size factor `p`, as the PINNED code did it: the
+    propagated state was kept even when the step was rejected (defect D17) -/
 def ctlStep [LT K] [DecidableLT K] [DecidableEq K] [Neg K] [Zero K] [Add K] [Sub K] [Mul K]
     (target pRestart pMin pMax : K) (s : Ctl K) (p : K) : Ctl K :=
   let dt := minAbs s.guess (target - s.evolved)
   if p < pRestart then
     { s with guess := dt * (if pMin < p then p else pMin), applied := s.applied + dt }
+  else if dt + s.evolved = target then
+    { s with guess := minAbs (dt * p) s.guess, applied := s.applied + dt, done := true }
+  else
+    { evolved := s.evolved + dt, guess := s.guess * (if p < pMax then p else pMax),
+      applied := s.applied + dt, done := false }
+
+/-- one pass of the loop as the repaired code does it: a rejected trial step is discarded, the
+    state has been propagated exactly by the accepted sub-steps -/
+def ctlStepFixed [LT K] [DecidableLT K] [DecidableEq K] [Neg K] [Zero K] [Add K] [Sub K] [Mul K]
+    (target pRestart pMin pMax : K) (s : Ctl K) (p : K) : Ctl K :=
+  if s.done then s else
+  let dt := minAbs s.guess (target - s.evolved)
+  if p < pRestart then
+    { s with guess := dt * (if pMin < p then p else pMin) }
   else if dt + s.evolved = target then
     { s with guess := minAbs (dt * p) s.guess, applied := s.applied + dt, done := true }
   else
